@@ -156,6 +156,7 @@ RULES = [t1, t2, t3, t4, t5, t6]
 def t7(ctx):
     c10.g2(ctx)
     c10.g3(ctx)
+    c10.g8(ctx)
 
 
 RULES.append(t7)
